@@ -102,6 +102,14 @@ def race_signature(prop, stderr):
     parts = re.split(r'\n\s*Previous ', blk, maxsplit=1)
     files = []
     for part in parts[:2]:
+        tm = None
+        for fm in re.finditer(r'^\s+github\.com/a-h/templ/(\S+\.go):\d+', part, re.M):   # -trimpath builds
+            if not fm.group(1).startswith('zzverif/'):
+                tm = fm.group(1)
+                break
+        if tm:
+            files.append(tm)
+            continue
         for fm in re.finditer(r'^\s+(/\S+?)/src/(\S+\.go):\d+', part, re.M):
             root, rel = fm.group(1), fm.group(2)
             if '/go1.' in root or rel.startswith('zzverif/'):
